@@ -805,3 +805,172 @@ Proof. destruct l as [|y t]; cbn; [reflexivity|]. intros H. inversion H as [|? ?
 Lemma store_tree_fixpoint l : sorted_lt l -> store_tree l = l.
 Proof. induction 1 as [|x t Ht IH Hx]; [reflexivity|]. change (store_tree (x :: t)) with (insert x (store_tree t)).
   rewrite IH. now apply insert_below. Qed.
+
+(* ------------------------------------------------------------------ the "extra" tree of a commit of several operations *)
+
+(* entity/dag/operation_pack.go makeExtraTree: the operations of the pack in order, the files of each in order, ONE counter
+   and ONE set of files already added for the whole pack (the two nested loops are one loop over the concatenation):
+   a file gets the next name "file<counter>" the first time it is met and is skipped afterwards *)
+Definition file_name (i : nat) : str := s_file ++ dec (N.of_nat i).
+Fixpoint make_extra_from (counter : nat) (added : list N) (files : list N) : list entry :=
+  match files with
+  | [] => []
+  | f :: t => if existsb (N.eqb f) added then make_extra_from counter added t
+              else mkentry false (file_name counter) f :: make_extra_from (S counter) (f :: added) t
+  end.
+Definition make_extra (ops : list (list N)) : list entry := make_extra_from 0 [] (List.concat ops).
+
+Lemma existsb_Neqb_In f a : existsb (N.eqb f) a = true <-> In f a.
+Proof. rewrite existsb_exists. split.
+  - intros (x & Hx & E). apply N.eqb_eq in E. now subst.
+  - intros H. exists f. split; [exact H|apply N.eqb_refl]. Qed.
+
+Lemma make_extra_names fs : forall c a,
+  map e_name (make_extra_from c a fs) = map file_name (seq c (List.length (make_extra_from c a fs))).
+Proof. induction fs as [|f t IH]; intros c a; cbn [make_extra_from]; [reflexivity|].
+  destruct (existsb (N.eqb f) a); [apply IH|]. cbn. f_equal. apply IH. Qed.
+
+Lemma make_extra_nodir fs : forall c a, map ekey (make_extra_from c a fs) = map e_name (make_extra_from c a fs).
+Proof. induction fs as [|f t IH]; intros c a; cbn [make_extra_from]; [reflexivity|].
+  destruct (existsb (N.eqb f) a); [apply IH|]. cbn. f_equal. apply IH. Qed.
+
+(* every file of the operations that was not added before is referenced, exactly once *)
+Lemma make_extra_hashes fs : forall c a,
+  (forall x, In x (map e_hash (make_extra_from c a fs)) <-> In x fs /\ ~ In x a) /\ NoDup (map e_hash (make_extra_from c a fs)).
+Proof. induction fs as [|f t IH]; intros c a; cbn [make_extra_from].
+  - split; [|constructor]. intros x. cbn. tauto.
+  - destruct (existsb (N.eqb f) a) eqn:E.
+    + apply existsb_Neqb_In in E. destruct (IH c a) as [H1 H2]. split; [|exact H2]. intros x. rewrite H1. cbn. split.
+      * intros [A B]. auto.
+      * intros [[A|A] B]; [subst; contradiction|auto].
+    + assert (Nf : ~ In f a). { intros I. apply existsb_Neqb_In in I. congruence. }
+      destruct (IH (S c) (f :: a)) as [H1 H2]. cbn [map e_hash]. split.
+      * intros x. cbn [In]. rewrite H1. cbn [In]. split.
+        -- intros [A|[A B]]; [subst; auto|]. split; [auto|]. intros I. apply B. now right.
+        -- intros [[A|A] B]; [now left|]. destruct (N.eq_dec f x) as [->|D]; [now left|]. right. split; [exact A|].
+           intros [I|I]; [contradiction|contradiction].
+      * constructor; [|exact H2]. intros I. apply H1 in I as [_ I]. apply I. now left. Qed.
+
+Lemma file_name_inj i j : file_name i = file_name j -> i = j.
+Proof. unfold file_name. intros H. apply app_inv_head in H. apply dec_inj in H. lia. Qed.
+
+Lemma file_names_nodup c n : NoDup (map file_name (seq c n)).
+Proof. apply FinFun.Injective_map_NoDup; [|apply seq_NoDup]. intros i j. apply file_name_inj. Qed.
+
+Lemma file_name_ok i : name_okb (file_name i) = true.
+Proof. unfold file_name, s_file. apply digits_name_ok; [reflexivity|discriminate]. Qed.
+
+(* whatever the operations and their files are (shared between operations, repeated inside one, none at all): the tree
+   is acceptable to git, its names are file0 .. file<n-1> (those of extra_tree for n files), and it references every file
+   of every operation exactly once *)
+Lemma extra_tree_of_ops ops :
+  git_tree_ok (store_tree (make_extra ops)) /\
+  map e_name (make_extra ops) = map file_name (seq 0 (List.length (make_extra ops))) /\
+  (forall p, ps_nfiles p = List.length (make_extra ops) -> map e_name (extra_tree p) = map e_name (make_extra ops)) /\
+  NoDup (map e_hash (make_extra ops)) /\
+  (forall f, In f (List.concat ops) <-> In f (map e_hash (make_extra ops))).
+Proof. unfold make_extra. pose proof (make_extra_names (List.concat ops) 0%nat []) as Hn.
+  destruct (make_extra_hashes (List.concat ops) 0%nat []) as [H1 H2]. split; [|split; [exact Hn|split; [|split; [exact H2|]]]].
+  - apply store_tree_ok.
+    + rewrite make_extra_nodir, Hn. apply file_names_nodup.
+    + rewrite Hn. apply file_names_nodup.
+    + apply Forall_forall. intros e He. assert (I : In (e_name e) (map e_name (make_extra_from 0 [] (List.concat ops)))) by now apply in_map.
+      rewrite Hn in I. apply in_map_iff in I as (i & <- & _). apply file_name_ok.
+  - intros p Hp. rewrite Hn, <- Hp. unfold extra_tree. rewrite map_map. reflexivity.
+  - intros f. rewrite H1. cbn. tauto. Qed.
+
+(* ------------------------------------------------------------------ author and committer lines of the commits *)
+
+(* what git fsck demands of the text after "author " / "committer " (fsck.c fsck_ident, git 2.39):
+   <name, no '<' '>' LF, not starting with '<'> SP '<' <address, no '<' '>' LF> '>' SP <digits, not zero padded> SP <sign> <4 digits> *)
+Definition stopb (c : N) : bool := (c =? 60) || (c =? 62) || (c =? 10).
+(* p += strcspn(p, "<>\n") *)
+Fixpoint span_stop (l : str) : str * str :=
+  match l with
+  | [] => ([], [])
+  | c :: t => if stopb c then ([], l) else let (a, b) := span_stop t in (c :: a, b)
+  end.
+Fixpoint span_digits (l : str) : str * str :=
+  match l with
+  | [] => ([], [])
+  | c :: t => if is_digit c then let (a, b) := span_digits t in (c :: a, b) else ([], l)
+  end.
+Definition tz_okb (z : str) : bool :=
+  match z with
+  | [s; a; b; c; d] => ((s =? 43) || (s =? 45)) && is_digit a && is_digit b && is_digit c && is_digit d
+  | _ => false
+  end.
+Definition zero_padded (ds : str) : bool := match ds with 48 :: _ :: _ => true | _ => false end.
+(* the part go-git's Signature.Encode appends: "%d %s" of the Unix time and "-0700" *)
+Definition date_tail_okb (d : str) : bool :=
+  let (ds, r) := span_digits d in
+  nonempty ds && negb (zero_padded ds) && match r with sp :: z => (sp =? 32) && tz_okb z | [] => false end.
+Definition fsck_identb (line : str) : bool :=
+  match line with
+  | [] => false
+  | c :: _ =>
+      if c =? 60 then false                                            (* missingNameBeforeEmail *)
+      else let (nm, r1) := span_stop line in
+           match r1 with
+           | c1 :: r2 =>
+               (c1 =? 60) &&                                           (* badName ('>' first), missingEmail *)
+               (last nm 32 =? 32) &&                                   (* missingSpaceBeforeEmail *)
+               (let (em, r3) := span_stop r2 in
+                match r3 with
+                | c3 :: sp :: d => (c3 =? 62) && (sp =? 32) && date_tail_okb d   (* badEmail, missingSpaceBeforeDate, zeroPaddedDate, badDate, badTimezone *)
+                | _ => false
+                end)
+           | [] => false
+           end
+  end.
+
+(* go-git object.Signature.Encode: "%s <%s> " of the name and the address *)
+Definition ident_prefix (name email : str) : str := name ++ 32 :: 60 :: email ++ [62; 32].
+(* what git itself does to a name or an address taken from the configuration (ident.c) and what StoreSignedCommit does
+   since the repair fixes/C15-clean-commit-ident.patch: '<', '>' and LF are left out *)
+Definition clean_ident (s : str) : str := filter (fun c => negb (stopb c)) s.
+
+Lemma span_stop_app a : forall c b, forallb (fun x => negb (stopb x)) a = true -> stopb c = true -> span_stop (a ++ c :: b) = (a, c :: b).
+Proof. induction a as [|x a IH]; intros c b Ha Hc; cbn [app span_stop].
+  - now rewrite Hc.
+  - cbn [forallb] in Ha. apply andb_true_iff in Ha as [Hx Ha]. apply negb_true_iff in Hx. rewrite Hx. now rewrite IH. Qed.
+
+Lemma clean_ident_clean s : forallb (fun x => negb (stopb x)) (clean_ident s) = true.
+Proof. unfold clean_ident. apply forallb_forall. intros x Hx. now apply filter_In in Hx as [_ Hx]. Qed.
+
+Lemma stopb_not_lt c : stopb c = false -> (c =? 60) = false.
+Proof. unfold stopb. intros H. apply orb_false_iff in H as [H _]. now apply orb_false_iff in H as [H _]. Qed.
+
+(* a line made of a clean name, a clean address and a well-formed date is accepted, whatever the name and the address are
+   (empty, spaces only, ...) *)
+Lemma clean_ident_line_ok name email d :
+  forallb (fun x => negb (stopb x)) name = true -> forallb (fun x => negb (stopb x)) email = true ->
+  date_tail_okb d = true -> fsck_identb (ident_prefix name email ++ d) = true.
+Proof. intros Hn He Hd. unfold ident_prefix.
+  replace ((name ++ 32 :: 60 :: email ++ [62; 32]) ++ d) with ((name ++ [32]) ++ 60 :: email ++ 62 :: 32 :: d)
+    by (rewrite <- !app_assoc; cbn; rewrite <- !app_assoc; reflexivity).
+  assert (Hn' : forallb (fun x => negb (stopb x)) (name ++ [32]) = true) by (rewrite forallb_app, Hn; reflexivity).
+  unfold fsck_identb. destruct ((name ++ [32]) ++ 60 :: email ++ 62 :: 32 :: d) as [|c rest] eqn:E.
+  - destruct name; discriminate.
+  - assert (Hc : (c =? 60) = false).
+    { destruct name as [|x name]; cbn in E; injection E as <- _; [reflexivity|].
+      cbn [forallb] in Hn. apply andb_true_iff in Hn as [Hx _]. apply negb_true_iff in Hx. now apply stopb_not_lt. }
+    rewrite Hc, <- E. rewrite (span_stop_app (name ++ [32]) 60 _ Hn' eq_refl). rewrite last_last.
+    rewrite (span_stop_app email 62 _ He eq_refl). cbn. exact Hd. Qed.
+
+(* repository/gogit.go StoreSignedCommit: the name and the address of the [author] and of the [committer] section of the
+   repository's own configuration (NOT [user], no environment variable), last value of each *)
+Definition cfg_text (key : str) (l : list (str * str)) : str :=
+  fold_left (fun acc e => if str_eqb (fst e) key then snd e else acc) l [].
+Definition k_author_name : str := Eval vm_compute in lit "author.name".
+Definition k_author_email : str := Eval vm_compute in lit "author.email".
+Definition k_committer_name : str := Eval vm_compute in lit "committer.name".
+Definition k_committer_email : str := Eval vm_compute in lit "committer.email".
+Definition author_prefix (cfg : list (str * str)) : str :=
+  ident_prefix (clean_ident (cfg_text k_author_name cfg)) (clean_ident (cfg_text k_author_email cfg)).
+Definition committer_prefix (cfg : list (str * str)) : str :=
+  ident_prefix (clean_ident (cfg_text k_committer_name cfg)) (clean_ident (cfg_text k_committer_email cfg)).
+
+Lemma commit_lines_wellformed cfg d : date_tail_okb d = true ->
+  fsck_identb (author_prefix cfg ++ d) = true /\ fsck_identb (committer_prefix cfg ++ d) = true.
+Proof. intros Hd. split; apply clean_ident_line_ok; auto using clean_ident_clean. Qed.
